@@ -1,10 +1,10 @@
 #!/bin/bash
 # Regenerates specs/svg_vocab.json: the element and attribute names the renderer emits for the
-# marker-free twin diagrams (modes render-plain and render2-plain) of the fixed render space. Run on the unchanged tree.
+# marker-free twin diagrams (modes render-plain, render2-plain and render3-plain) of the fixed render space. Run on the unchanged tree.
 set -e
 cd /verif
 OUT=$(mktemp -d /tmp/vocab.XXXX)
-.build/vdrive pipe -tier thorough -out $OUT -arg modes=render-plain,render2-plain -arg stages=layout,render -arg space=600 -arg engines=dagre > /dev/null
+.build/vdrive pipe -tier thorough -out $OUT -arg modes=render-plain,render2-plain,render3-plain -arg stages=layout,render -arg space=600 -arg engines=dagre > /dev/null
 python3 - "$OUT" <<'PY'
 import json,glob,sys
 el=set(); at=set()
